@@ -34,6 +34,24 @@ CHECKS = {
             "Sabotaged copies must be rejected.",
             TRUST + "standard normal quantiles for STEPD from scipy.stats.norm.ppf.",
             "TLA+ spec + TLC model checking + TLC trace validation of recorded executions", "5/C05"),
+    "C08": ("KdqTree.tla defines build (three-way stop rule, axis cycling, midpoint split), fill, reset, leaf order, the +0.5-corrected "
+            "distributions, KL, the flattened plotly view and the Kulldorff statistic on integer data (exact). TLC checks, for EVERY multiset of "
+            "up to 4 points on a 3x3 / 4x4 grid and a 5-point line, all count_ubounds and two cell-size bounds, followed by every fill under two ids "
+            "with/without reset: partition, no small node split, children sums, leaf totals, counts = routing, refill reproduces build counts, "
+            "distributions sum to 1, KL >= 0 and 0 for equal counts, flattened view well-formed. Conformance: every multiset of <= 3/4 grid points "
+            "and random sessions (1-4 dims, duplicates, clusters, up to 400 points, fills/resets/queries) run on the real KDQTreePartitioner; after "
+            "every call TLC compares the whole public tree node by node, leaf counts, kl_distance, plotly rows and KSS values.",
+            TRUST + "integer-valued data; scipy.stats.entropy is compared numerically (1e-7).",
+            "TLA+ spec + TLC model checking + TLC trace validation of recorded executions", "5/C08"),
+    "C09": ("KdqDetector.tla puts the streaming (reference window, silent test window, in-a-row persistence run, restart) and batch (reference, "
+            "fill-with-reset, drifted batch becomes reference) protocols on top of KdqTree.tla; the bootstrap critical value is an environment value "
+            "constrained to an independently computed bracket. TLC checks all sample sequences over a 3-point alphabet to depth 9/11 (W 2-3, three "
+            "persistence values, two critical values) and all sequences over a 3-batch alphabet: silence until 2W, drift <=> run in a row > p*W, "
+            "batch rule, next reference, lifecycle refinement. Conformance: bursty integer streams (1-3 dims, resets) and batch histories (with "
+            "set_reference mid-history and first-update-as-reference) on the real classes; TLC recomputes tree, divergence and decision at every "
+            "step, binds the critical value to the observed one and requires it inside the exact-Beta bracket of the documented quantile.",
+            TRUST + "_critical_dist/_test_dist are optional private reads; the bracket is an independent 1500-pair bootstrap.",
+            "TLA+ spec + TLC model checking + TLC trace validation with bracketed stochastic threshold", "5/C09"),
     "C12": ("TLC explores Ensemble.tla (members as abstract lifecycle machines, four elections from Election.tla, own counters, reset fan-out) "
             "for 1-3 members, all vote schedules to depth 5/7: verdict = rule(member states), counters count updates, reset reaches everyone. "
             "Conformance: real StreamingEnsemble/BatchEnsemble with mixed members (DDM, EDDM, STEPD, ADWIN, PageHinkley, CUSUM, KdqTreeStreaming; "
